@@ -71,10 +71,13 @@ def le32(n):
     return struct.pack("<I", n & 0xFFFFFFFF)
 
 
-def code_wrapper(magic_version, consts_stream):
+def code_wrapper(magic_version, consts_stream, override=None):
     """A minimal well-formed code object for `magic_version` whose co_consts
-    slot holds `consts_stream` (raw marshal bytes).  Layout per version."""
+    slot holds `consts_stream` (raw marshal bytes).  Layout per version.
+    override: {slot name: raw marshal bytes} puts another object into the slot of a field
+    (code, names, varnames, filename, name, lnotab ...): type confusion."""
     v = magic_version
+    ov = override or {}
     out = b"c"
     out += le32(0)  # argcount
     if v >= (3, 8):
@@ -86,24 +89,24 @@ def code_wrapper(magic_version, consts_stream):
     out += le32(1)  # stacksize
     out += le32(64)  # flags
     code = b"d\x00S\x00" if v >= (3, 6) else b"d\x00\x00S"
-    out += b"s" + le32(len(code)) + code
+    out += ov.get("code", b"s" + le32(len(code)) + code)
     out += consts_stream
-    out += b"(" + le32(0)  # names
+    out += ov.get("names", b"(" + le32(0))  # names
     if v >= (3, 11):
         out += b"(" + le32(0)  # localsplusnames
         out += b"s" + le32(0)  # localspluskinds
     else:
-        out += b"(" + le32(0)  # varnames
-        out += b"(" + le32(0)  # freevars
-        out += b"(" + le32(0)  # cellvars
+        out += ov.get("varnames", b"(" + le32(0))  # varnames
+        out += ov.get("freevars", b"(" + le32(0))  # freevars
+        out += ov.get("cellvars", b"(" + le32(0))  # cellvars
     fn = b"<hostile>"
     tcode = b"u" if v >= (3, 0) else b"s"  # names are text in Python 3, byte strings in Python 2
-    out += tcode + le32(len(fn)) + fn  # filename
-    out += tcode + le32(1) + b"f"  # name
+    out += ov.get("filename", tcode + le32(len(fn)) + fn)  # filename
+    out += ov.get("name", tcode + le32(1) + b"f")  # name
     if v >= (3, 11):
         out += tcode + le32(1) + b"f"  # qualname
     out += le32(1)  # firstlineno
-    out += b"s" + le32(0)  # lnotab / linetable
+    out += ov.get("lnotab", b"s" + le32(0))  # lnotab / linetable
     if v >= (3, 11):
         out += b"s" + le32(0)  # exceptiontable
     return out
@@ -195,6 +198,34 @@ def dropbox_headers(rng):
             body = bytes(rng.randrange(256) for _ in range(rng.choice([0, 16, 64, 200])))
             yield "adversarial:dropbox-header:b=%s" % bname, hdr + b"c" + b"i" + le32(a) + b"i" + le32(b) + body
             yield "adversarial:dropbox-header-raw:b=%s" % bname, hdr + b"c" + le32(a) + le32(b) + body
+
+
+def type_confusion(rng):
+    """Code objects whose field slots hold a well-formed marshal object of the wrong type: a dict with huge line numbers
+    where the line table belongs, ints / None / lists / nested tuples in the code, name and file-name slots."""
+    def mlong(n):
+        digs = []
+        while n:
+            digs.append(n & 0x7FFF)
+            n >>= 15
+        return b"l" + le32(len(digs)) + b"".join(struct.pack("<H", d) for d in digs)
+
+    objs = {
+        "dict-int-2^31-1": b"{" + b"i" + le32(0) + b"i" + le32(0x7FFFFFFF) + b"0",
+        "dict-int-2^75": b"{" + b"i" + le32(0) + mlong((1 << 75) - 1) + b"0",
+        "dict-many": b"{" + b"".join(b"i" + le32(i * 2) + b"i" + le32((i * 7919) % 100000) for i in range(50)) + b"0",
+        "int": b"i" + le32(7),
+        "none": b"N",
+        "list": b"[" + le32(2) + b"i" + le32(1) + b"N",
+        "tuple-of-ints": b"(" + le32(3) + b"i" + le32(1) * 3,
+        "long-2^75": mlong(1 << 75),
+        "float": b"g" + struct.pack("<d", 1e300),
+    }
+    for v in sorted(HEADERS):
+        for slot in ("lnotab", "code", "names", "varnames", "filename", "name", "freevars", "cellvars"):
+            for oname, raw in sorted(objs.items()):
+                yield "adversarial:type-confusion:%s=%s:v%d.%d" % (slot, oname, v[0], v[1]), \
+                    HEADERS[v] + code_wrapper(v, b"(" + le32(1) + b"N", {slot: raw})
 
 
 def dropbox_streams(rng):
